@@ -483,13 +483,19 @@ class Monitor:
             self.c["basis_diag_fast_path"] = self.c.get("basis_diag_fast_path", 0) + 1
             return
         K = self.solver["max_iterations"]
+        if K == 1:
+            # a single iteration is judged by the backward-stability check alone: exact whatever the conditioning
+            okb, first = matref.qr_backward_check(Q, L, Q0, u)
+            self.c["basis_qr_backward"] += 1
+            self.c["basis_qr_matched"] += 1
+            if not okb:
+                raise self._viol(f"eigenbasis {j} refreshed at step {t}: Q_new^T (L Q_old) is not row-permuted upper triangular, so Q_new is not a QR factor of L @ Q_old", b, t, kind="basis_not_qr_update")
+            rq = torch.einsum("ij,ik,kj->j", Q, L, Q)
+            if float((rq[:-1] - rq[1:]).max()) > 64 * n * u * max(nL, 1e-300):
+                raise self._viol(f"eigenbasis {j} refreshed at step {t}: columns are not ordered by ascending Rayleigh quotient", b, t, kind="basis_not_sorted")
+            return
         matched, k, nv, worst = matref.match_orth_iter(Q, L, Q0, K, u, gen=torch.Generator().manual_seed(12345 + t))
         if not matched:
             raise self._viol(f"eigenbasis {j} refreshed at step {t} is not the orthogonal-iteration update of the previous basis (any k<= {K})", b, t, kind="basis_not_qr_update")
         self.c["basis_qr_matched"] += 1
         self.c["basis_qr_nonvacuous"] += nv
-        if K == 1:
-            okb, first = matref.qr_backward_check(Q, L, Q0, u)
-            self.c["basis_qr_backward"] += 1
-            if not okb:
-                raise self._viol(f"eigenbasis {j} refreshed at step {t}: Q_new^T (L Q_old) is not row-permuted upper triangular, so Q_new is not a QR factor of L @ Q_old", b, t, kind="basis_not_qr_update")
